@@ -4,11 +4,12 @@ from __future__ import annotations
 from fractions import Fraction
 
 from .. import core, pb, elections as E
+from .. import mesgen
 from ..core import q, lst, natl
 
 ID = "C01"
 ORACLE = "Oracle.C01"
-PROPS = "Props/C01.v"
+PROPS = ["Props/C01.v", "Props/C01mes.v"]
 LEVEL = "proof"
 SHARD = 300
 CODES = {
@@ -37,15 +38,40 @@ EXPLANATION = ("Theorems: the oracle decides exactly feasibility + inclusion of 
                "and each returned allocation is checked by the verified oracle inside Coq.")
 
 RULES = ["greedy", "greedy", "maxw_pd", "maxw_ilp", "mes", "mes", "mes_iter", "phragmen", "phragmen",
-         "completion", "increase"]
+         "completion", "increase", "increase", "mes", "mes_tight", "mes_tight", "mes_tight", "mes_tight", "mes_tight"]
 
 
 def budget(tier):
-    return 700 if tier == "quick" else 12000
+    return 3000 if tier == "quick" else 30000
+
+
+def _gen_mes_tight(rng):
+    """Equal Shares on larger multiprofiles with big multiplicities and a budget equal to a subset sum: the
+    stream on which a bookkeeping slip in the payments (e.g. a forgotten multiplicity) ends over budget."""
+    m = rng.choice([6, 7, 8])
+    pool = rng.choice([[1, 2, 3, 4], [1, 2, 4, 5], [2, 3, 5], [1, 1, 2, 3], [1, 2, 3, 5, 8]])
+    costs = [Fraction(rng.choice(pool)) for _ in range(m)]
+    ballots = []
+    for _ in range(rng.choice([3, 4, 5])):
+        S = sorted(rng.sample(range(m), rng.randrange(2, m)))
+        ballots += [S] * rng.choice([1, 2, 3, 4, 5])
+    B = sum(rng.sample(costs, rng.randrange(m // 2, m)), Fraction(0))
+    order = list(range(m))
+    rng.shuffle(order)
+    perm = list(range(m))
+    rng.shuffle(perm)
+    return {"costs": [pb.qs(c) for c in costs], "budget": pb.qs(B), "order": order, "btype": "approval",
+            "ballots": ballots, "multi": rng.random() < 0.85, "rule": "mes",
+            "sat": rng.choice(["Cost_Sat", "Cardinality_Sat"]),
+            "tb": rng.choice(["lexico", "min_cost", "max_cost", "perm", "app_score"]), "perm": perm,
+            "resolute": rng.random() < 0.85, "init": [], "solver": False, "binary_sat": rng.choice([None, False]),
+            "stream": "mes_tight"}
 
 
 def gen(rng, i, tier):
     rule = RULES[i % len(RULES)]
+    if rule == "mes_tight":
+        return _gen_mes_tight(rng)
     btypes = ("approval",) if rule == "phragmen" else ("approval", "approval", "cardinal", "cumulative", "ordinal")
     deg = rng.random() < 0.2      # degenerate stream
     e = E.gen_election(rng, max_proj=(3 if deg else 6), max_voters=5, btypes=btypes)
@@ -58,6 +84,17 @@ def gen(rng, i, tier):
             e["ballots"] = [[] if e["btype"] in ("approval", "ordinal") else {} for _ in e["ballots"]]
         elif k == 2 and n:
             e["budget"] = pb.qs(min(pb.F(c) for c in e["costs"]) / 2 or Fraction(1, 2))   # nothing affordable
+    if not deg and rule in ("mes", "mes_iter", "completion", "increase") and rng.random() < 0.7:
+        # Equal-Shares-shaped elections (many rounds, poor and rich supporters in one round, duplicated ballots
+        # -> multiplicities >= 2, equal costs -> ties): the shared generator of the Equal Shares properties
+        g = mesgen.gen_election(rng, max_proj=6, max_vot=6)
+        if rule == "increase" and g["ballot"] != "approval" and rng.random() < 0.5:
+            g = mesgen.gen_election(rng, max_proj=6, max_vot=6)
+        n2 = len(g["costs"])
+        order = list(range(n2))
+        rng.shuffle(order)
+        e = {"costs": g["costs"], "budget": g["budget"], "order": order, "btype": g["ballot"],
+             "ballots": g["ballots"], "multi": rng.random() < 0.6}
     c = dict(e)
     c["rule"] = rule
     sats = E.SATS[e["btype"]]
@@ -72,7 +109,7 @@ def gen(rng, i, tier):
     perm = list(range(n))
     rng.shuffle(perm)
     c["perm"] = perm
-    c["resolute"] = rng.random() < 0.6
+    c["resolute"] = rng.random() < (0.45 if rule in ("increase", "completion") else 0.6)
     c["init"] = []
     c["solver"] = bool(sats[c["sat"]][1]) or rule == "maxw_ilp"
     if rule == "greedy":
